@@ -306,3 +306,13 @@ def run(pid, tier, seed, replay):  # noqa: F811
     if pid == "C09":
         return run_c09(tier, seed, replay)
     return _run2(pid, tier, seed, replay)
+
+
+_run3 = run
+
+
+def run(pid, tier, seed, replay):  # noqa: F811
+    if pid in ("C16", "C17"):
+        import cliprops
+        return cliprops.run_c16(tier, seed, replay) if pid == "C16" else cliprops.run_c17(tier, seed, replay)
+    return _run3(pid, tier, seed, replay)
